@@ -5,7 +5,6 @@
 from __future__ import annotations
 
 import datetime
-from collections import defaultdict
 from types import MappingProxyType
 from typing import TYPE_CHECKING, Any, Final, Literal, TypeVar
 
@@ -87,10 +86,18 @@ def _to_ticks(obj: datetime.datetime | datetime.timedelta) -> int:
 def _to_lookup(mapping: Mapping[_TKey, _TValue]) -> MappingProxyType[_TValue, Sequence[_TKey]]:
     """Produces a mapping of value->keys, aking to the `.ToLookup()` in dotnet."""
     # TODO: Make this work for other collections, not just dict.
-    lookup = defaultdict(list)
+    lookup = _Lookup()
     for k, v in mapping.items():
-        lookup[v].append(k)
+        lookup.setdefault(v, []).append(k)
     return MappingProxyType(lookup)
+
+
+class _Lookup(dict[_TValue, list[_TKey]]):
+    """Backing mapping for ``_to_lookup``: like a dotnet ``ILookup``, indexing with a key which is not present gives an
+    empty sequence - without adding the key, so that reading from the lookup never changes it."""
+
+    def __missing__(self, key: _TValue) -> list[_TKey]:
+        return []
 
 
 def _sealed(cls: _Ttype) -> _Ttype:
